@@ -47,7 +47,17 @@ type refTracker struct {
 	// per contact: requests seen, and those answered in a way that cannot
 	// possibly carry an interval (no connection, an error status, an empty body)
 	nreq, nsilent map[int]int
+	// stubborn != 0: every datagram of the run is answered with this one
+	// kind of bad reply (a tracker that never gives a usable answer)
+	stubborn int
+	// datagrams received since the most recent invocation of Announce
+	udpSinceAnnounce int
 }
+
+// maxDatagramsPerAnnounce bounds what one announce may send: BEP 15 allows
+// at most 9 transmissions of a request, an announce is two requests, on two
+// address families (36); nearly twice that is "unbounded retransmission".
+const maxDatagramsPerAnnounce = 64
 
 func (rt *refTracker) noteRequest(silent bool) {
 	if rt.nreq == nil {
@@ -222,6 +232,13 @@ func (rt *refTracker) udpHandler(w *World, c *udpConn, data []byte) []UDPReply {
 	if len(data) < 16 {
 		return nil
 	}
+	rt.udpSinceAnnounce++
+	if rt.udpSinceAnnounce == maxDatagramsPerAnnounce+1 {
+		w.rc.Fail("C15", "retransmission-unbounded", "udp", "%d datagrams were sent to the tracker since the last invocation of Announce (stubborn reply kind %d): retransmission is not bounded", rt.udpSinceAnnounce, rt.stubborn)
+	}
+	if rt.udpSinceAnnounce > maxDatagramsPerAnnounce {
+		return nil // say nothing more, so that every further attempt costs the client a timeout
+	}
 	action := binary.BigEndian.Uint32(data[8:])
 	tid := binary.BigEndian.Uint32(data[12:])
 	var reply []byte
@@ -259,6 +276,10 @@ func (rt *refTracker) udpHandler(w *World, c *udpConn, data []byte) []UDPReply {
 	fault := 0
 	if rt.hostile {
 		fault = st.Weighted(5, 2, 1, 1, 1, 2, 1, 1, 1)
+	}
+	if rt.stubborn != 0 {
+		fault = rt.stubborn
+		delay = time.Duration(500+st.Choice(2500)) * time.Millisecond
 	}
 	if fault != 0 {
 		rt.misbehaved()
@@ -340,12 +361,22 @@ func trackerMain(rc *RunCtx) {
 		url = "http://tracker.example/announce"
 		w.HTTP["tracker.example"] = rt.httpHandler
 	}
+	// a tracker that answers every datagram, always badly, in the same way
+	if udp && hostile && st.Bool(1, 3) {
+		rt.stubborn = simrt.Pick(st, 1, 1, 2, 4, 8)
+	}
+	// an HTTP tracker may be reached through a proxy (one request instead of
+	// one per address family)
+	proxy := ""
+	if !udp && st.Bool(1, 3) {
+		proxy = "socks5://127.0.0.1:9050"
+	}
 	tr := tracker.New(url)
 	if tr == nil {
 		rc.Fail("C15", "setup", "", "tracker.New(%q) = nil", url)
 		return
 	}
-	rc.SetSample("setup", fmt.Sprintf("%s hostile=%v", url, hostile))
+	rc.SetSample("setup", fmt.Sprintf("%s hostile=%v stubborn=%d proxy=%q", url, hostile, rt.stubborn, proxy))
 	got := map[string]bool{}
 	hash := drawBytes(st, 20)
 	myid := drawBytes(st, 20)
@@ -373,14 +404,24 @@ func trackerMain(rc *RunCtx) {
 				if hostile {
 					to = simrt.Pick(st, 120, 120, 10, 1)
 				}
+				if rt.stubborn != 0 {
+					// the torrent's own announces carry the torrent's
+					// lifetime as their context: practically no deadline
+					to = 6 * 3600
+				}
 				ctx, cancel := context.WithTimeout(context.Background(), time.Duration(to)*time.Second)
 				start := rc.S.Now()
-				err := tr.Announce(ctx, hash, myid, 50, 1<<20, 6881, 6881, "", func(a netip.AddrPort) bool {
+				rt.udpSinceAnnounce = 0
+				err := tr.Announce(ctx, hash, myid, 50, 1<<20, 6881, 6881, proxy, func(a netip.AddrPort) bool {
 					got[a.String()] = true
 					return true
 				})
 				cancel()
 				anns = append(anns, annRec{start, rc.S.Now(), err})
+				if d := rc.S.Now() - start; d > 3*time.Hour {
+					// BEP 15's whole retransmission schedule (15 * 2^n s, n = 0..8) lasts 2 h 8 min
+					rc.Fail("C15", "announce-unbounded", "", "an announce with a deadline of %d s returned only after %v (%v): the tracker stays busy for as long as a hostile tracker keeps answering", to, d, err)
+				}
 				announces++
 				if err == nil {
 					rc.Progress()
